@@ -119,7 +119,8 @@ def geometry_edits(spec, ds):
                 ds, name, xarray.Variable(var.dims, view, var.attrs, var.encoding))
             break
     # shape with identical bytes: 2-D coordinates of a non-square grid without bounds
-    if conv in ("cf2d", "shoc_simple") and not spec["geom"]["bounds"]:
+    if (conv in ("cf2d", "shoc_simple") and not spec["geom"]["bounds"]
+            and not spec["geom"].get("bad_bounds") and not spec.get("dim_coords")):
         n = spec["geom"]["names"]
         lat, lon = ds.variables[n["lat"]], ds.variables[n["lon"]]
         if lat.shape[0] != lat.shape[1] and not ds.data_vars.keys() - {n["lat"], n["lon"]}:
